@@ -235,7 +235,38 @@ def run_chained(case):
     return res
 
 
+def run_inf(case):
+    """a quantitative column holding +-inf (accepted by the quantile discretizers): with copy=True the caller's frame is not
+    modified and fit_transform(X) equals fit(X').transform(X) on an identical copy X'"""
+    from AutoCarver.discretizers import ContinuousDiscretizer, Discretizer, QuantitativeDiscretizer
+
+    vals = [float(i % 8 + 1) for i in range(40)]
+    vals[3], vals[10] = np.inf, -np.inf  # one saturated value at each end: every quantile cut stays finite
+    X = pd.DataFrame({"q": pd.Series(vals, dtype=float), "other": list(range(40))})
+    y = pd.Series([int(i % 8 >= 4) for i in range(40)])
+    mk = {"ContinuousDiscretizer": lambda: ContinuousDiscretizer(["q"], 0.2, copy=True), "QuantitativeDiscretizer": lambda: QuantitativeDiscretizer(["q"], 0.2, copy=True), "Discretizer": lambda: Discretizer(["q"], [], 0.2, copy=True)}[case["cls"]]
+    res = {"violations": [], "sample": dict(case), "evaluations": 2}
+    X0 = X.copy(deep=True)
+    try:
+        a = mk().fit_transform(X, y)
+        same_input = frame_equal(X, X0)
+        b = mk().fit(X0.copy(deep=True), y).transform(X0.copy(deep=True))
+    except Exception as exc:  # noqa  (+-inf is outside the inputs the properties call well-formed: no verdict if it is refused)
+        res["outcome"] = f"inf:{case['cls']}:refused:{type(exc).__name__}"
+        return res
+    if not same_input:
+        res["violations"].append({"kind": "fit-modifies-input", "what": f"{case['cls']}.fit_transform(copy=True) modified the caller's X (column with +-inf)"})
+    if not frame_equal(a, b):
+        res["violations"].append({"kind": "fit_transform-differs", "what": f"{case['cls']}: fit_transform(X, y) differs from fit(copy of X, y).transform(X) on a column with +-inf"})
+    res["outcome"] = f"inf:{case['cls']}"
+    res["nontrivial"] = f"inf:{case['cls']}"
+    res["transitions"] = res["validated"] = 2
+    return res
+
+
 def run_case(case):
+    if case.get("inf"):
+        return run_inf(case)
     if case.get("chained"):
         return run_chained(case)
     if case.get("newrows"):
@@ -359,6 +390,8 @@ def run(tier, seed, rep):
         for od in ("float", "str") if cls == "BinaryCarver" else ("str",):
             cases.append({"cls": cls, "cfg": {"dropna": True, "output_dtype": od}, "seed": seed, "newrows": True, "chunk": 0, "events": []})
     cases.append({"cls": "ChainedDiscretizer", "cfg": {"dropna": False, "output_dtype": "str"}, "seed": seed, "chained": True, "chunk": 0, "events": []})
+    for cls in ("ContinuousDiscretizer", "QuantitativeDiscretizer", "Discretizer"):
+        cases.append({"cls": cls, "cfg": {"dropna": True, "output_dtype": "str"}, "seed": seed, "inf": True, "chunk": 0, "events": []})
     rep.rule = (
         "ChainedDiscretizer(unknown_handling='drop'): all 1023 row subsets; row-wise purity on unseen values: two categorical features sharing their vocabulary, every ordered pair of the 25 row types; "
         f"E2: for each class (3 carvers, Discretizer, Qualitative-, QuantitativeDiscretizer; copy=True; carvers x dropna x output_dtype, with and "
